@@ -318,6 +318,10 @@ def datum(x, g, rec=None):
         return AttrRecord(d)
     if rec == "scalar":
         return d["x"]
+    if rec == "intdict":
+        # whole numbers as Python ints (and, for selections, booleans where the value is 0 / 1)
+        return {k: (int(v) if isinstance(v, float) and v == v and abs(v) != float("inf") and v == int(v) else v)
+                for k, v in d.items()}
     if rec == "npdict":
         # the numbers of a record as NumPy scalars (what iterating over an array or a DataFrame column yields)
         return {k: (np.float64(v) if isinstance(v, float) else v) for k, v in d.items()}
